@@ -1,6 +1,7 @@
 """C02 - exit status reflects the worst finding; incomplete audits never look clean; policy status follows the verdict."""
 import itertools
 import json
+import os
 import time
 
 from mc import evidence, explore, harness as H, par, peer, report
@@ -194,11 +195,52 @@ def broken_tasks(tier):
                 out.append((arch, p, fmt))
             if arch != 'G':
                 out.append((arch, p, 'text-T'))      # the same target as the only line of a -T file
+            if arch == 'A':
+                out.append((arch, p, 'policy-text'))  # the same broken handshakes under -P: a verdict is shown exactly with status 0 / 3
+                out.append((arch, p, 'policy-json'))
     return out
+
+
+def _policy_file():
+    path = H.tmp_path('c02-broken-policy-%d.txt' % os.getpid())
+    if not os.path.exists(path):
+        with open(path, 'w') as f:
+            f.write('name = "p"\nversion = 1\nciphers = aes256-ctr\n')
+    return path
+
+
+def work_broken_policy(arch, plan, fmt, st):
+    sc = F.scenario(arch, True, extra_opts=['-P', _policy_file()] + (['-j'] if fmt == 'policy-json' else []))
+    res = explore.run_plan(sc, plan)
+    st.execution(res.world, outcome=('broken-policy', res.status, plan[0][1][0]), root=('broken', arch, plan, fmt), nontrivial=('broken', arch, plan, fmt))
+    d = {'arch': arch, 'plan': plan, 'fmt': fmt, 'status': res.status, 'stdout_tail': res.stdout[-300:]}
+    if res.hang or res.exc:
+        st.violation('broken:policy:hang-or-exception', dict(d, hang=res.hang, exc=res.exc))
+        return
+    verdict = None
+    if fmt == 'policy-json':
+        try:
+            doc = json.JSONDecoder().raw_decode(res.stdout.lstrip())[0]
+            if isinstance(doc, dict) and 'passed' in doc:
+                verdict = bool(doc['passed'])
+        except ValueError:
+            pass
+    else:
+        pt = report.PolicyText(res.stdout)
+        verdict = {'passed': True, 'failed': False}.get(pt.result)
+    if verdict is True and res.status != 0:
+        st.violation('broken:policy:verdict-passed-but-status-%s' % res.status, d)
+    elif verdict is False and res.status != 3:
+        st.violation('broken:policy:verdict-failed-but-status-%s' % res.status, d)
+    elif verdict is None and res.status in (0, 3):
+        st.violation('broken:policy:status-%s-without-verdict' % res.status, d)
 
 
 def work_broken(chunk, st):
     for arch, plan, fmt in chunk:
+        if fmt.startswith('policy-'):
+            work_broken_policy(arch, plan, fmt, st)
+            continue
         via_T = fmt == 'text-T'
         sc = F.scenario(arch, True, extra_opts=(['-j'] if fmt == 'json' else []), via_targets_file=via_T)
         res = explore.run_plan(sc, plan)
